@@ -162,13 +162,17 @@ pub fn oracle(chain: &Chain) -> Vec<String> {
           if location.insert(*sequence_number, *loc).is_some() {
             bad.push(format!("block {h}: sequence number {sequence_number} created twice"));
           }
-          let mut c = *c;
-          // a new inscription landing on an OP_RETURN output is burned from the start
+          // the event must carry the charms of the entry at creation bit for bit; in particular an
+          // inscription created directly on an OP_RETURN output is burned from the start
+          // (OP_RETURN decided here by the first script byte 0x6a, not by the implementation)
           if let Some(sp) = loc {
-            if is_op_return(chain, sp) {
-              c |= burned_flag;
+            if is_op_return(chain, sp) && *c & burned_flag == 0 {
+              bad.push(format!(
+                "block {h}: InscriptionCreated #{sequence_number} at OP_RETURN output {sp} without the Burned charm (charms {c:#x})"
+              ));
             }
           }
+          let c = *c;
           charms.insert(*sequence_number, c);
           ins_id.insert(*sequence_number, *inscription_id);
           parents.insert(*sequence_number, parent_inscription_ids.clone());
@@ -267,5 +271,5 @@ fn is_op_return(chain: &Chain, sp: &SatPoint) -> bool {
     .by_txid
     .get(&sp.outpoint.txid)
     .and_then(|n| chain.txs[*n].tx.output.get(sp.outpoint.vout as usize))
-    .map_or(false, |o| o.script_pubkey.is_op_return())
+    .map_or(false, |o| o.script_pubkey.as_bytes().first() == Some(&0x6a))
 }
